@@ -165,6 +165,11 @@ func (c *Ctx) blockingSites() []blockingSite {
 					out = append(out, blockingSite{fn, in, "select", ""})
 				}
 			case *ssa.Send:
+				if ir.InGuardClause(in) && ir.KnownNonNil(x.X) {
+					// the "no" of a guard clause on an input that must be
+					// present: on the same channel, instead of the answer
+					return
+				}
 				out = append(out, blockingSite{fn, in, "send", c.chanKey(x.Chan)})
 			case *ssa.UnOp:
 				if x.Op == token.ARROW {
